@@ -264,7 +264,7 @@ theorem checkedPrepend_inv {g : Forest} (hi : g.Inv) {p c : Nat} {cv pv : Value}
 
 /-- All children to the right of a normal child are normal. -/
 theorem _root_.XotModel.KidsOK.right_normal {s : Bool} {v : Value} {a : List HTree} {S : HTree} {b : List HTree}
-    (h : KidsOK s v (a ++ S :: b)) (_hS : S.value.category = .normal) :
+    (h : KidsOK s v (a ++ S :: b)) :
     ∀ y ∈ b, rankOf S ≤ rankOf y := by
   have h2 := h.sorted
   unfold Sorted at h2
@@ -393,7 +393,7 @@ theorem checkedInsertBefore_inv {g : Forest} (hi : g.Inv) {ref c : Nat} {cv sv :
           rw [List.mem_cons] at hy
           rcases hy with hy | hy
           · subst hy; simp [rankOf, htv, hcn, hSv, hsn]
-          · have := K0.right_normal hSn y hy
+          · have := K0.right_normal y hy
             rw [rankOf_normal hSn] at this
             simpa [rankOf, htv, hcn, Category.rank] using this
         · intro hs htt
@@ -423,7 +423,7 @@ theorem right_normal_of_normal {g : Forest} (hi : g.Inv) {ref : Nat} {sv : Value
   rw [innerValue_snoc] at k1
   have K0 := (kidsOK_iff _ _ _).mp k1
   have hSn : S.value.category = .normal := by rw [hSv]; exact hsn
-  have := K0.right_normal hSn y hy
+  have := K0.right_normal y hy
   rw [rankOf_normal hSn] at this
   exact category_normal_of_rank this
 
